@@ -35,7 +35,7 @@ func init() {
 	// ------------------------------------------------------------------ C01
 	register(&Prop{
 		ID: "C01", Level: "exploration", QuickS: 20, ThoroughS: 300,
-		Rule: "seeded authentication attempts against ClearTextPassword(validator) and a custom failing strategy: validator outcome drawn per case (accept / reject / fail), the client sends in place of the password message a correct, wrong or empty password, a password message without NUL / with surplus bytes / with declared length 0-3, > limit or 2^32-1, another message type, garbage, or nothing; then a generated tail of queries, extended messages, Terminate and raw bytes, pipelined in the same segment or sent after the server's reply; segmentation and a failing write are drawn per case; non-trivial = the connection was not accepted and the client sent at least one message after its credentials; distinct = distinct case content hashes",
+		Rule:       "seeded authentication attempts against ClearTextPassword(validator) and a custom failing strategy: validator outcome drawn per case (accept / reject / fail), the client sends in place of the password message a correct, wrong or empty password, a password message without NUL / with surplus bytes / with declared length 0-3, > limit or 2^32-1, another message type, garbage, or nothing; then a generated tail of queries, extended messages, Terminate and raw bytes, pipelined in the same segment or sent after the server's reply; segmentation and a failing write are drawn per case; non-trivial = the connection was not accepted and the client sent at least one message after its credentials; distinct = distinct case content hashes",
 		Components: e1Components, Assumptions: commonAssumptions,
 		Gen: func(r *Rand, tier string) *Case {
 			c := &Case{Server: ServerCfg{Auth: "cleartext", Limit: r.PickInt(64, 256, 4096)}, Programs: map[string]*Program{}}
@@ -187,7 +187,7 @@ func init() {
 	// ------------------------------------------------------------------ C02
 	register(&Prop{
 		ID: "C02", Level: "exploration", QuickS: 25, ThoroughS: 420,
-		Rule: "seeded sessions from the widest handler-program generator (0-4 columns with arbitrary NUL-free names, every covered OID, rows that are fine / wrong arity / unencodable at column j so that a frame is abandoned half-built, command tags, errors decorated with every combination and order of code/severity/hint/detail/source/constraint and %w wrapping, COPY responses, startup with and without authentication, oversized and unknown client messages, simple and extended protocol) with a failing or transiently failing k-th write in a third of the runs; the accepted output must parse under the strict backend grammar with zero bytes left over; the same rule runs as a monitor in every other property's runs; non-trivial = the run produced at least one ErrorResponse, DataRow or rejected row; distinct = distinct case content hashes",
+		Rule:       "seeded sessions from the widest handler-program generator (0-4 columns with arbitrary NUL-free names, every covered OID, rows that are fine / wrong arity / unencodable at column j so that a frame is abandoned half-built, command tags, errors decorated with every combination and order of code/severity/hint/detail/source/constraint and %w wrapping, COPY responses, startup with and without authentication, oversized and unknown client messages, simple and extended protocol) with a failing or transiently failing k-th write in a third of the runs; the accepted output must parse under the strict backend grammar with zero bytes left over; the same rule runs as a monitor in every other property's runs; non-trivial = the run produced at least one ErrorResponse, DataRow or rejected row; distinct = distinct case content hashes",
 		Components: e1Components, Assumptions: commonAssumptions,
 		Gen: func(r *Rand, tier string) *Case {
 			c := &Case{Server: ServerCfg{Limit: smallLimit(r)}}
